@@ -75,6 +75,7 @@ func libGoroutinesAllBlocked(gid string) (bool, string) {
 	dump := string(buf)
 	lib := 0
 	watchedParked := false
+	watchedBlk := ""
 	var stuck []string
 	for _, blk := range strings.Split(dump, "\n\n") {
 		m := reGo.FindStringSubmatch(blk)
@@ -84,6 +85,7 @@ func libGoroutinesAllBlocked(gid string) (bool, string) {
 		lib++
 		if m[1] == gid {
 			watchedParked = true // (state checked below: any non-parked state returns false)
+			watchedBlk = "(the watched call) " + blk
 		}
 		st := m[2]
 		if k := strings.Index(st, ","); k >= 0 {
@@ -91,14 +93,17 @@ func libGoroutinesAllBlocked(gid string) (bool, string) {
 		}
 		switch st {
 		case "chan send", "chan receive", "select", "sync.Cond.Wait", "sync.Mutex.Lock", "semacquire", "chan send (nil chan)", "chan receive (nil chan)", "select (no cases)", "sync.WaitGroup.Wait", "sync.RWMutex.Lock", "sync.RWMutex.RLock":
-			if len(stuck) < 6 {
+			if len(stuck) < 6 && m[1] != gid {
 				stuck = append(stuck, blk)
 			}
 		default:
 			return false, ""
 		}
 	}
-	return lib > 0 && watchedParked, strings.Join(stuck, "\n\n")
+	if watchedBlk != "" {
+		stuck = append([]string{watchedBlk}, stuck...)
+	}
+	return lib > 0 && watchedParked, fmt.Sprintf("%d goroutines inside the library, all parked\n\n", lib) + strings.Join(stuck, "\n\n")
 }
 
 func (c *Ctx) Watch(what string, fn func()) watchResult {
